@@ -518,8 +518,11 @@ impl Pager {
             // [MemPage::dealloc] consumes itself and creates a new MemPage with an overflow header.
             let deallocated_page = mem_page.dealloc();
 
-            // Here the write needs to write as an overflow page , regardless of the value of [P]
-            deallocated_page.with_bytes(|bytes| self.write_block(id, bytes, page_size))?;
+            // The freed image stays in the cache, dirty, like every other change: it reaches the file
+            // with the next checkpoint (or an eviction). Writing it at once put it into the file while
+            // the tree on disk - and the free list in page zero - still counted the page as a node:
+            // a crash before the next checkpoint left a tree that pointed at an empty page.
+            deallocated_page.mark_dirty();
             self.cache_frame(deallocated_page)?;
         };
 
